@@ -372,7 +372,7 @@ def _c17(prop, tier, seed, t0):
         extra, cow_viol = cow_check(prop, tier, seed, wd)
     return check.finish_trace_check(prop, tier, seed, res, t0, total,
                                     dict({"cpp_results_compared": res.cover.get("cpp_paired", 0),
-                                          "sanitizers": "AddressSanitizer + LeakSanitizer on the C++ drivers"}, **extra),
+                                          "sanitizers": "AddressSanitizer + LeakSanitizer + UndefinedBehaviorSanitizer on the C++ drivers"}, **extra),
                                     extra_violations=viol + cow_viol,
                                     extra_states=extra.get("cow_states", 0), extra_transitions=extra.get("cow_transitions", 0))
 
